@@ -876,10 +876,44 @@ def memoisation(ctx):
                     # a table of per-key cursors advanced in place: whether answers still equal a fresh lookup depends on how the code rewinds - not decided here
                     ctx.undecided('C18.memo', 'stateless components keep no state between calls (%s)' % m.qn, m.site(n), 'self.%s: %s' % (fld, mt[1]))
                     continue
+                tables_ = {k_ for k_, v_ in memos.items() if v_[0] == 'sound' or (v_[0] == 'other' and 'cursor' in v_[1])}
+                if tables_ and _only_guards_resets(c, fld, tables_):
+                    # the field is consulted for one thing only: deciding when to empty the memo/cursor tables (the time of the last query, a generation count)
+                    ctx.undecided('C18.memo', 'stateless components keep no state between calls (%s)' % m.qn, m.site(n),
+                                  'self.%s only decides when self.%s is emptied: whether that is often enough is the open question about those tables' % (fld, '/'.join(sorted(tables_))))
+                    continue
                 ctx.violation('C18.memo', 'stateless components keep no state between calls (%s)' % m.qn, m.site(n),
                               'self.%s is %s outside the constructor and read back: results depend on the history of earlier queries' % (fld, how),
                               key='C18.memo|state|%s|%s' % (m.qn, fld))
     ctx.holds('C18.memo', 'statelessness scan of pricing/alpha/sizing components', None)
+
+
+def _only_guards_resets(c, fld, tables):
+    """every read of self.<fld> in class c sits in the test of an `if` (without else) whose body does nothing but empty/rebind the given tables or set self.<fld>"""
+    def is_self_attr(x, names=None):
+        return isinstance(x, ast.Attribute) and isinstance(x.value, ast.Name) and x.value.id == 'self' and (names is None or x.attr in names)
+
+    def maintenance(s):
+        if isinstance(s, ast.Expr) and isinstance(s.value, ast.Call) and isinstance(s.value.func, ast.Attribute) and s.value.func.attr in ('clear', 'pop', 'popitem') \
+                and is_self_attr(s.value.func.value, tables):
+            return True
+        if isinstance(s, ast.Assign) and all(is_self_attr(t, tables | {fld}) for t in s.targets):
+            return not any(is_self_attr(x, {fld}) for x in ast.walk(s.value))
+        if isinstance(s, ast.Delete):
+            return all(is_self_attr(t.value if isinstance(t, ast.Subscript) else t, tables) for t in s.targets)
+        return isinstance(s, ast.Pass)
+    n_reads = 0
+    for m in c.methods.values():
+        guarded = set()
+        for s in ast.walk(m.node):
+            if isinstance(s, ast.If) and not s.orelse and all(maintenance(b) for b in s.body):
+                guarded |= {id(x) for x in ast.walk(s.test)}
+        for x in ast.walk(m.node):
+            if is_self_attr(x, {fld}) and isinstance(x.ctx, ast.Load):
+                n_reads += 1
+                if id(x) not in guarded:
+                    return False
+    return n_reads > 0
 
 
 # ------------------------------------------------------------------------------------------------ ordering operations
